@@ -356,6 +356,10 @@ impl<T> Matrix<T> {
      * that calls this.
      */
     pub(crate) unsafe fn _get_reference_unchecked(&self, row: Row, column: Column) -> &T {
+        #[cfg(feature = "verif-hooks")]
+        crate::verif_hooks::matrix_access(
+            row, column, self.rows, self.columns, self.data.len(), self.data.as_ptr() as usize, false,
+        );
         self.data.get_unchecked(self.get_index(row, column))
     }
 
@@ -398,6 +402,10 @@ impl<T> Matrix<T> {
         row: Row,
         column: Column,
     ) -> &mut T {
+        #[cfg(feature = "verif-hooks")]
+        crate::verif_hooks::matrix_access(
+            row, column, self.rows, self.columns, self.data.len(), self.data.as_ptr() as usize, true,
+        );
         let index = self.get_index(row, column);
         // borrow for get_index ends
         self.data.get_unchecked_mut(index)
@@ -1877,4 +1885,12 @@ fn test_indexing() {
         ])
         .map(|x| x.to_owned())
     );
+}
+
+#[cfg(feature = "verif-hooks")]
+impl<T> Matrix<T> {
+    /// Verification hook: the number of elements actually stored, to compare with the size.
+    pub fn verif_storage_len(&self) -> usize {
+        self.data.len()
+    }
 }
